@@ -54,6 +54,7 @@ EXPECT = {
     'I1': [('FixtureHarm::T', 'invR')],
     'DSP': [('FixtureHarm::Value', 'Engine<FULL>')],
     'SW1': [('FixtureLint::Use', 'Cell(m,n)')],
+    'N1': [('FixtureLint::Fold', 'lon->sincosd')],
     'OV1': [('FixtureLint::LengthOk', 'product@')],
     'X7r': [('FixtureShared::HalfFilled', 'alpha_')],
     'K7': [('FixtureRaster::probe', 'B1 filepos column')],
@@ -116,6 +117,9 @@ def run_controls(rules):
         elif r == 'SW1':
             from .rules import lint
             res = lint.rule_SW1(fx, None)[0]
+        elif r == 'N1':
+            from .rules import lint
+            res = lint.rule_N1(fx, None)[0]
         elif r == 'OV1':
             from .rules import lint
             res = lint.rule_OV1(fx, None)[0]
